@@ -407,16 +407,26 @@ func (r *seqRun) epilogue(full bool) {
 	if !full {
 		return
 	}
+	// for the attribution of an I5 failure only: is a request that has had its final frame still in the table?
+	staleEntries := 0
+	if _, m, u := r.h.Snapshot(); r.leakAttr == "" && m+u > 0 {
+		staleEntries = m + u
+	}
 	// then N managed sends succeed with N distinct ids in 1..N (I1, I2 are judged by send)
 	for i := 0; i < r.cfg.N; i++ {
 		r.apply(op{Kind: opSendManaged})
 		if !r.lastOK {
-			attr := r.leakAttr
-			if attr == "" {
-				attr = "unattributed"
+			key := "seq/I5/leak-after-" + r.leakAttr
+			extra := ""
+			switch {
+			case r.leakAttr != "":
+			case staleEntries > 0:
+				key = "seq/I5/answered-request-still-in-flight"
+				extra = fmt.Sprintf("; %d request(s) that received a final frame are still in the in-flight table", staleEntries)
+			default:
+				key = "seq/I5/leak-after-unattributed"
 			}
-			r.fail("seq/I5/leak-after-"+attr,
-				fmt.Sprintf("after every request was answered only %d of N=%d managed sends succeeded; the next was refused: %s", i, r.cfg.N, r.lastSendErr))
+			r.fail(key, fmt.Sprintf("after every request was answered only %d of N=%d managed sends succeeded; the next was refused: %s%s", i, r.cfg.N, r.lastSendErr, extra))
 			return
 		}
 	}
@@ -431,8 +441,8 @@ func (r *seqRun) epilogue(full bool) {
 // frames for deliveries: immutable, shared (the handler only queues the pointer)
 
 var (
-	finalCache [6][128]*frame.Frame
-	pageCache  [2][128]*frame.Frame
+	finalCache [nFinalVariants][128]*frame.Frame
+	pageCache  [nPageVariants][128]*frame.Frame
 )
 
 func init() {
